@@ -285,7 +285,33 @@ class C06(common.Prop):
             res['exc'] = '%s: %s' % (type(exc).__name__, str(exc)[:100])
         if case.get('hier') and 'exc' not in res:
             res['gl'] = self._hier_level(case, laa)
+        elif case.get('directional') and 'exc' not in res and 'n' in res:
+            # no cut records for this family (its failures lie in a listed class): the graph-level CORRESPONDENCE is
+            # still run - the driver machine over the dictionaries the implementation read must return the graphs the
+            # implementation returned at every coarse level, iteration orders included - so that a failure of the class
+            # counts as the listed finding only while the implementation still behaves as the model predicts
+            res['gl'] = self._corr_level(case, laa, res['n'])
         return res
+
+    def _corr_level(self, case, laa, n):
+        from cgsmiles.resolve import MoleculeResolver
+        try:
+            r = MoleculeResolver.from_string(case['layered'], last_all_atom=laa)
+        except Exception:
+            return None
+        out = {'base': lit.nxgraph(copy.deepcopy(r.molecule)), 'corr_only': True, 'hcount': {}, 'm2': None,
+               'fds': [lit.lst([lit.pair(lit.s(nm), lit.nxgraph(g)) for nm, g in fd.items()]) for fd in r.fragment_dicts]}
+        ncoarse = n - (1 if laa else 0)
+        outs = []
+        try:
+            for _ in range(ncoarse):
+                _, mol = r.resolve()
+                outs.append(lit.nxgraph(copy.deepcopy(mol)))
+        except Exception:
+            pass
+        out['outs'] = outs
+        out['ncoarse'] = ncoarse
+        return out
 
     def _hier_level(self, case, laa):
         """Gallina literals of what the implementation read and returned: fragment dictionaries, base graph, the fine graph
@@ -390,8 +416,15 @@ class C06(common.Prop):
         fresh = ('{| f_len := %s; f_laa := %s; f_manual := %s; f_iter := %s; f_all := %s |}'
                  % (lit.nat(n), lit.b(laa), lit.lst([ous(m) for m in impl['manual']]), ous(impl['iter']), ous(impl['all'])))
         gl = impl.get('gl')
-        if not gl:
+        if not gl or (gl.get('corr_only') and gl['ncoarse'] < 1):
             run = 'None'
+        elif gl.get('corr_only'):
+            # dummy cuts that are not well formed: lrun_fail does not judge, lrun_corr compares model and implementation
+            dummy = ('{| c_atoms := []; c_bonds := [{| cb_u := 0; cb_v := 1; cb_ord := VInt 1; cb_lab := S "x"; '
+                     'cb_dollar := true |}]; c_parts := []; c_dord := [] |}')
+            run = _compress('(Some {| lr_U := %s; lr_Cs := %s; lr_C0 := %s; lr_fds := %s; lr_base := %s; lr_outs := %s; lr_m2 := None |})'
+                            % (dummy, lit.lst([dummy] * (gl['ncoarse'] - 1)), '(Some %s)' % dummy if laa else 'None',
+                               lit.lst(gl['fds']), gl['base'], lit.lst(gl['outs'])))
         else:
             cuts = case['hier']['cuts']
             ncoarse = len(cuts) - (1 if laa else 0)
